@@ -26,6 +26,7 @@ MetaObs observe_meta(carquet_reader_t* r) {
 }
 
 void run_c03(sim::RunCtx& ctx) {
+    gen::g_row_cap = 0;
     validfile::VF vf; validfile::Opts vo; vo.small = sim::draw(4) != 3; vo.bias_zero_copy = true; vo.allow_nested = sim::draw(3) == 0;
     common::apply_benign_knobs();
     const std::string path = SIMDISK "c03.parquet";
